@@ -379,7 +379,7 @@ def check(prop, tier, seed, t0):
         "obligations": n_thm, "discharged": n_ok,
         "checker_cmd": f"cd lean && lake build SpecsModel.Props.{prop} && lake env lean Audit/{prop}.lean" + (f" && lake env leanchecker SpecsModel.Props.{prop}" if tier == "thorough" else ""),
         "trusted_base": vlib.TRUSTED_BASE + [
-            "hibitset is modelled at two levels (sets; four layers of words); the word <-> ascending-position-list abstraction is the residual assumption, exercised on masks straddling 63/64, 4095/4096, 262143/262144 and on raw bit sets up to 2^24-1",
+            "hibitset is modelled at three levels (A: sets; B: four layers of position lists; C: four layers of 64-bit words with the Rust word operations, incl. the real average_ones) related by proved refinements (level_c_* theorems); what remains trusted is the reading of Rust's usize/u32/u64 operations as Nat operations below 2^64, Vec growth of BitSet layers (a word beyond len reads as 0) and the bool results of add/remove; exercised on masks straddling 63/64, 4095/4096, 262143/262144 and on raw bit sets up to 2^24-1",
             "rayon is a parameter of the theorems (every split tree, every schedule); the real scheduler is only sampled (pools of 1,2,3,8,16,64,128 threads)"],
         "theorems": lean.get("theorems", []),
         "axioms_used": sorted({a for n in lean.get("axioms", {}) for a in lean["axioms"][n]}),
